@@ -29,7 +29,8 @@ func idSet(ids []atree.SlabID) map[atree.SlabID]bool {
 }
 
 func runC20(cs *Case) (*CaseStats, error) {
-	e, err := NewEngine(cs.Cfg, Oracles{CmpEvery: 0})
+	// the live storage (write set + cache, both commit flavours) must be accepted after every step too
+	e, err := NewEngine(cs.Cfg, Oracles{CmpEvery: 0, Health: true})
 	if err != nil {
 		return nil, err
 	}
@@ -309,8 +310,9 @@ func init() {
 		MaxBulk: 40, Keys: []int{12, 64},
 		ValW:    map[string]int{"u": 8, "s0": 3, "s1": 4, "s2": 3, "s5": 3, "s6": 1, "some": 2, "arr": 4, "map": 3},
 		MaxDepth: 2, MaxElems: 6, AcqW: [3]int{8, 1, 1},
-		CollLimits: []uint32{255},
+		CollLimits: []uint32{255}, NondetPct: 50,
 	})
+	g.W["commit"], g.W["evict"] = 4, 1
 	g.DigRootsPct = 25
 	register(&PropDef{
 		ID:         "C20",
